@@ -12,7 +12,11 @@ object identities directly.
 Documents: forest shapes x rich fillings, resolved links, the naming dimension (how the NAME of an object relates
 to ids) and the relation dimension (with whom an object SHARES its id / name / attributes / content: Document,
 parent, ancestor, sibling, child, descendant, other branch; clones grafted into the document of their original),
-each also loaded from files; export_leaf additionally in trees whose root is a detached Section.
+each also loaded from files; export_leaf additionally in trees whose root is a detached Section; the
+inherited-attribute dimension (which levels - Document, ancestor Section, the Section itself, several with different
+or equal URLs - DEFINE the repository the levels below inherit; terminology cache pre-filled: no network, no thread):
+every copied object is compared with what the original object itself owns (private field and public getter), the
+applicable repository inside the detached copy, and of a clone put into another document, is derived from that.
 """
 from __future__ import annotations
 
@@ -544,6 +548,7 @@ def tidy(fn):
             return fn(tier, seed)
         finally:
             cleanup_work()
+            uninstall_repositories()
     run.__name__, run.__doc__ = fn.__name__, fn.__doc__
     return run
 
@@ -738,10 +743,165 @@ def relation_makers(tier, seed, scope='full'):
 
 
 # ---------------------------------------------------------------------------------------------
+# inherited-attribute dimension: which level DEFINES an attribute that the levels below only inherit
+# ---------------------------------------------------------------------------------------------
+# `repository` is the attribute of a Document / Section whose applicable value (get_repository()) is inherited from
+# the nearest object above that defines one.  What an object OWNS (the attribute) and what APPLIES to it are two
+# things; a copy has to carry over what the original owns, object by object - nothing more, nothing less.
+# The URLs are put into the library's terminology cache up front: the setter / the file readers / the validation
+# then find them there (no network access, no loader thread).
+
+INH_URLS = ['http://c11.invalid/term-%d.xml' % i for i in range(6)]
+INH_SHAPES_QUICK = [((((),),),), (((),), ()), (((), ()),)]
+INH_SHAPES_THOROUGH = INH_SHAPES_QUICK + [((((),), ()),), (((((),),),),), ((((), ()),),)]
+
+
+def install_repositories():
+    from odml import terminology
+    cache = terminology.terminologies
+    for url in INH_URLS:
+        if url not in cache:
+            with h.quiet():
+                term = odml.Document(author='terminology', version='1')
+                odml.Section(name='tsec', type='t', parent=term)
+            cache[url] = term
+        cache.loading.pop(url, None)
+
+
+def uninstall_repositories():
+    from odml import terminology
+    for url in INH_URLS:
+        terminology.terminologies.pop(url, None)
+
+
+def levels_of(doc):
+    """The objects that can define a repository: the Document (level 0), then the Sections breadth first."""
+    return [doc] + h.walk(doc)[0]
+
+
+def inherit_classes(root):
+    """id(obj) -> how the repository that applies to a Document / Section relates to what it owns (private fields)."""
+    out = {}
+
+    def rec(o, above):          # above: [(distance, url)] nearest definer above, or None
+        own = o._repository
+        if own is None:
+            if above is None:
+                lab = 'none'
+            else:
+                lab = 'inherited-from-%s' % above[0]
+        elif above is None:
+            lab = 'own'
+        else:
+            lab = 'own-%s-as-inherited-from-%s' % ('same-url' if own == above[1] else 'other-url', above[0])
+        out[id(o)] = lab
+        kids = list(list.__iter__(o._sections))
+        for c in kids:
+            if own is not None:
+                nxt = ('document' if isinstance(o, BaseDocument) else 'parent', own)
+            elif above is not None:
+                nxt = (above[0] if above[0] == 'document' else 'ancestor', above[1])
+            else:
+                nxt = None
+            rec(c, nxt)
+    rec(root, None)
+    return out
+
+
+def inherit_makers(tier, seed, scope='full'):
+    """[(witness, make)] over the inherited-attribute dimension.
+    1. subsets (exhaustive): every shape x every subset of levels {Document, each Section} defines a repository of
+       its own, all URLs different (covers: Document only, one ancestor Section only, the Section itself, several levels);
+    2. same URL: the Document and one Section (each in turn) define the SAME URL (owned value == inherited value);
+    3. the value is set through the public setter / written into the field the way the constructors do;
+    4. the same documents written to a file and loaded again (XML / JSON / YAML).
+    scope='reduced': one shape, the subsets with at most two definers (for the expensive independence runs)."""
+    full = scope == 'full'
+    shapes = (INH_SHAPES_THOROUGH if tier != 'quick' else INH_SHAPES_QUICK) if full else \
+        (INH_SHAPES_QUICK[:1] if tier == 'quick' else INH_SHAPES_QUICK)
+    specs = []
+    for shape in shapes:
+        n = count_objects(shape, 0) + 1
+        for mask in range(1, 2 ** n):
+            levels = [i for i in range(n) if mask >> i & 1]
+            if (not full or n > 4) and 2 < len(levels) < n:
+                continue
+            if not full and tier == 'quick' and len(levels) == 2 and 0 not in levels:
+                continue
+            specs.append((shape, 'define:' + ','.join('%d=%d' % (lv, k) for k, lv in enumerate(levels))))
+        for lv in range(1, n) if (full or tier != 'quick') else (n - 1,):
+            specs.append((shape, 'define:0=0,%d=0' % lv))
+
+    def maker(shape, spec, how, fmt):
+        fill = 'c11-inh-%s-%r' % (seed, shape)
+
+        def make():
+            install_repositories()
+            doc = h.build_doc(shape, random.Random(fill), names=['a', 'ab', 'b', 'c'], props_per_sec=(1, 2))
+            levels = levels_of(doc)
+            for part in spec[7:].split(','):
+                lv, k = part.split('=')
+                obj, url = levels[int(lv)], INH_URLS[int(k)]
+                if how == 'setter':
+                    kind, _ = h.call(setattr, obj, 'repository', url)
+                    if kind == 'exc':
+                        return None
+                else:
+                    obj._repository = url
+            if fmt:
+                doc = via_file(doc, fmt)
+            return doc
+        return ({'shape': repr(shape), 'fill': fill, 'linked': False, 'naming': 'plain', 'inherit': '%s %s' % (spec, how),
+                 'loaded': fmt}, make)
+
+    out = []
+    for n, (shape, spec) in enumerate(specs):
+        how = ('setter', 'field')[n % 2]
+        out.append(maker(shape, spec, how, None))
+        if full and tier != 'quick':
+            out.append(maker(shape, spec, ('field', 'setter')[n % 2], None))
+        if tier != 'quick' and full:
+            fmts = FORMATS
+        else:
+            fmts = [FORMATS[n % 3]] if n % (4 if full else 5) == 0 else []
+        for fmt in fmts:
+            wit, make = maker(shape, spec, how, fmt)
+            if make() is not None:
+                out.append((wit, make))
+    return out
+
+
+def effective_repositories(root, above=None):
+    """[(object, repository that applies to it)] computed from the private fields: the own value if there is one,
+    else the value of the nearest object above that has one (`above`: what applies above root)."""
+    out = []
+
+    def rec(o, inherited):
+        eff = o._repository if o._repository is not None else inherited
+        out.append((o, eff))
+        for c in list.__iter__(o._sections):
+            rec(c, eff)
+    rec(root, above)
+    return out
+
+
+def observed_effective(root):
+    """What get_repository() reports for every Document / Section of the tree (public API)."""
+    out = []
+    if isinstance(root, BaseProperty):
+        return out
+    with h.quiet():
+        for o in [root] + h.walk(root)[0]:
+            kind, v = lcall(o.get_repository)
+            out.append(v if kind == 'ret' else 'raised %s' % type(v).__name__)
+    return tuple(out)
+
+
+# ---------------------------------------------------------------------------------------------
 # documents (re-buildable: independence checks destroy the original)
 # ---------------------------------------------------------------------------------------------
 
-def doc_makers(tier, seed, max_secs=None, per_shape=None, naming='full', relations='full'):
+def doc_makers(tier, seed, max_secs=None, per_shape=None, naming='full', relations='full', inherit='full'):
     """[(witness, make)] ; make() builds the same document (up to uuids) every time it is called."""
     if max_secs is None:
         max_secs = 4 if tier == 'quick' else 5
@@ -775,6 +935,8 @@ def doc_makers(tier, seed, max_secs=None, per_shape=None, naming='full', relatio
         out += naming_makers(tier, seed, scope=naming)
     if relations:
         out += relation_makers(tier, seed, scope=relations)
+    if inherit:
+        out += inherit_makers(tier, seed, scope=inherit)
     return out
 
 
@@ -984,9 +1146,94 @@ def lookup_problems(orig, copy, classes, names=None):
     return out
 
 
-def judge_clone(col, name, orig, copy, children, keep_id, witness, via='clone', classes=None, names=None):
+PUBLIC_ATTRS = {
+    'document': ('author', 'version', 'date', 'repository'),
+    'section': ('type', 'definition', 'reference', 'repository', 'link', 'include', 'sec_cardinality', 'prop_cardinality'),
+    'property': ('dtype', 'unit', 'uncertainty', 'reference', 'definition', 'dependency', 'dependency_value',
+                 'value_origin', 'val_cardinality', 'values'),
+}
+
+
+def object_pairs(orig, copy, children=True):
+    """(original object, copied object, 'copy root' | 'descendant') position by position, Properties included, as
+    far as kinds and list lengths agree."""
+    out = []
+
+    def rec(o, c, top):
+        if kind_of(o) != kind_of(c):
+            return
+        out.append((o, c, 'copy root' if top else 'descendant'))
+        if top and not children:
+            return
+        for attr in ('_sections', '_props'):
+            lo = list(list.__iter__(getattr(o, attr, [])))
+            lc = list(list.__iter__(getattr(c, attr, [])))
+            if len(lo) == len(lc):
+                for x, y in zip(lo, lc):
+                    rec(x, y, False)
+    rec(orig, copy, True)
+    return out
+
+
+def public_problems(triples, inh=None, ids=False):
+    """What the copy reports through its public getters must be what the original object itself reports (its OWN
+    value: a copy of an object that merely inherits a value does not own one).  (called inside h.quiet())
+    -> [(feature, detail)], the first problem per feature."""
+    out, seen = [], set()
+    inh = inh or {}
+    for o, c, where in triples:
+        k = kind_of(o)
+        for attr in PUBLIC_ATTRS[k] + (('id',) if ids else ()):
+            kind, want = lcall(getattr, o, attr)
+            if kind == 'exc':
+                continue
+            kind, got = lcall(getattr, c, attr)
+            if kind == 'ret' and h.snap(want) == h.snap(got):
+                continue
+            feature = '%s of %s %s' % (attr, where, k)
+            if attr == 'repository':
+                feature += ' (%s)' % inh.get(id(o), 'none')
+            if feature not in seen:
+                seen.add(feature)
+                out.append((feature, '%s.%s of the copy is %r; the original %s reports %r (private field of the original: %r)'
+                            % (k, attr, got, node_path(o), want, getattr(o, '_' + attr, '<n/a>'))))
+    return out
+
+
+def effective_problems(orig, copy, children, inh=None, above=None, host=''):
+    """get_repository() of every Document / Section of the copy: the value the corresponding original object owns,
+    else that of the nearest copied object above it that owns one, else `above` (what applies where the copy was put;
+    None for a detached copy).  (called inside h.quiet())  -> [(feature, detail)]"""
+    out, seen = [], set()
+    inh = inh or {}
+    if isinstance(orig, BaseProperty):
+        return out
+
+    def rec(o, c, inherited, top):
+        if kind_of(o) != kind_of(c):
+            return
+        eff = o._repository if o._repository is not None else inherited
+        kind, got = lcall(c.get_repository)
+        if kind == 'exc' or got != eff:
+            feature = '%s%s %s (%s)' % (host, 'copy root' if top else 'descendant', kind_of(o), inh.get(id(o), 'none'))
+            if feature not in seen:
+                seen.add(feature)
+                out.append((feature, 'get_repository() of the copy of %s gives %r; the original owns %r and the nearest '
+                                     'definer above it in the copy gives %r' % (node_path(o), got, o._repository, inherited)))
+        if top and not children:
+            return
+        lo, lc = list(list.__iter__(o._sections)), list(list.__iter__(c._sections))
+        if len(lo) == len(lc):
+            for x, y in zip(lo, lc):
+                rec(x, y, eff, False)
+    rec(orig, copy, above, True)
+    return out
+
+
+def judge_clone(col, name, orig, copy, children, keep_id, witness, via='clone', classes=None, names=None, inh=None):
     """All clauses of the clone contract for one (original, copy).
-    names: id(obj) -> name of every object of the original recorded BEFORE the call (default: read now)."""
+    names: id(obj) -> name of every object of the original recorded BEFORE the call (default: read now).
+    inh: id(obj) -> inherit_classes label (only for labelling failures)."""
     k = kind_of(orig)
     base = {'kind': k, 'children': children, 'keep_id': keep_id}
     if classes is None:
@@ -1010,6 +1257,14 @@ def judge_clone(col, name, orig, copy, children, keep_id, witness, via='clone', 
         fail('equal-content' if children else 'equal-attributes',
              '%s: %s' % (k, locate_difference(orig, copy, children, classes)),
              'first difference original vs copy: %s' % d)
+    # the same through the public getters, object by object; and the repository that applies inside the detached copy
+    with h.quiet():
+        pub = public_problems(object_pairs(orig, copy, children), inh)
+        eff = effective_problems(orig, copy, children, inh)
+    for feature, detail in pub:
+        fail('public-attributes-equal', '%s: %s' % (k, feature), detail)
+    for feature, detail in eff:
+        fail('applicable-repository', '%s: %s' % (k, feature), detail)
     # the public name of the copy is the name of the original
     if k != 'document':
         want = names[id(orig)] if names is not None else orig._name
@@ -1069,6 +1324,48 @@ def clone_call(node, children, keep_id):
     return h.call(node.clone, children=children, keep_id=keep_id)
 
 
+MOVE_HOSTS = ['document-without-repository', 'document-with-other-repository', 'section-with-other-repository',
+              'section-without-repository-below-document-with-other-repository']
+
+
+def moved_copies(col, name, node, children, keep_id, witness, inh, key, hosts=None):
+    """A clone of a Section put into ANOTHER document: the repository that applies to every Section of it there is
+    what the corresponding original Section owns, else what the nearest copied Section above owns, else what applies at
+    the place it was put - never something it merely inherited at the place it was copied from."""
+    for host in hosts or MOVE_HOSTS:
+        other = INH_URLS[-1]
+        with h.quiet():
+            if host == 'document-without-repository':
+                place = odml.Document(author='host')
+                above = None
+            elif host == 'document-with-other-repository':
+                place = odml.Document(author='host')
+                place._repository = other
+                above = other
+            else:
+                hdoc = odml.Document(author='host')
+                place = odml.Section(name='host-section', type='t', parent=hdoc)
+                if host == 'section-with-other-repository':
+                    hdoc._repository = INH_URLS[-2]
+                    place._repository = other
+                else:
+                    hdoc._repository = other
+                above = other
+        kind, copy = clone_call(node, children, keep_id)
+        if kind == 'exc' or not isinstance(copy, BaseSection):
+            continue                        # reported by the clauses of the clone itself
+        kind, _ = h.call(place.append, copy)
+        if kind == 'exc' or copy._parent is not place:
+            continue                        # placing is not the subject here
+        col.case(cls_key=key + ('moved', host))
+        with h.quiet():
+            probs = effective_problems(node, copy, children, inh, above=above, host=host + ': ')
+        for feature, detail in probs:
+            col.fail(check=name + '/moved-copy-applicable-repository',
+                     cls={'clause': 'moved-copy-applicable-repository', 'feature': 'section: %s' % feature},
+                     witness=dict(witness, kind='section', children=children, keep_id=keep_id, host=host), detail=detail)
+
+
 @tidy
 def run_clone(tier, seed):
     name = 'C11.clone'
@@ -1085,11 +1382,17 @@ def run_clone(tier, seed):
                          'another branch; mixtures with the naming modes; the same loaded from files with repeated ids); '
                          'distinct = (node kind, flags, has children, has nested values, depth, name/id relation of the '
                          'node, id-related names below, linked, loaded, with whom the node shares its id, ids repeated '
-                         'below the node, content relation of the node, generation)', exhaustive=False)
+                         'below the node, content relation of the node, generation, how the repository applying to the node '
+                         'and to the Sections below relates to what they own, way it was set, place a clone was moved to); '
+                         'inherited-attribute dimension: every subset of levels {Document, each Section} defines a repository '
+                         '(different URLs; Document and one Section the same URL), set by setter / field / loaded from file; '
+                         'public getters of every copied object compared with the original object; clones of Sections moved '
+                         'into 4 kinds of places of another document', exhaustive=False)
     for wit, make in doc_makers(tier, seed):
         doc = make()
         classes = name_classes(doc)
         idc, cont = id_classes(doc), content_classes(doc)
+        inh = inherit_classes(doc) if wit.get('inherit') else {}
         before_doc = plain_snap(doc)    # the whole document (it contains the node) must never change
         for node in all_nodes(doc):
             k = kind_of(node)
@@ -1105,7 +1408,9 @@ def run_clone(tier, seed):
                 key = (k, children, keep_id, haskids, nested, wit['linked'], depth_of(node),
                        classes.get(id(node), 'n/a'), subtree_trait(node, classes), bool(wit['loaded']),
                        idc[id(node)], len(set(ids_below)) < len(ids_below),
-                       any(idc[id(x)] != 'unique' for x in below), cont.get(id(node), 'n/a'))
+                       any(idc[id(x)] != 'unique' for x in below), cont.get(id(node), 'n/a'),
+                       inh.get(id(node), 'none'), tuple(sorted({inh[id(x)] for x in below if id(x) in inh})),
+                       wit.get('inherit', '').rsplit(' ', 1)[-1])
                 col.case(cls_key=key + (1,),
                          sample='%s %s children=%s keep_id=%s' % (wit['shape'], node_path(node), children, keep_id))
                 kind, copy = clone_call(node, children, keep_id)
@@ -1113,7 +1418,12 @@ def run_clone(tier, seed):
                     col.fail(check=name + '/returns', cls={'clause': 'returns', 'feature': '%s %s' % (k, type(copy).__name__)},
                              witness=dict(w, children=children, keep_id=keep_id), detail='clone raised %r' % (copy,))
                 else:
-                    judge_clone(col, name, node, copy, children, keep_id, w, classes=classes, names=names)
+                    judge_clone(col, name, node, copy, children, keep_id, w, classes=classes, names=names, inh=inh)
+                    if inh and k == 'section':
+                        # quick tier: all places for the plain clone, one place (rotating) for the other flags
+                        moved_copies(col, name, node, children, keep_id, w, inh, key,
+                                     hosts=None if (tier != 'quick' or (children and not keep_id)) else
+                                     [MOVE_HOSTS[(depth_of(node) + 2 * children + keep_id) % len(MOVE_HOSTS)]])
                 d = snap_diff(before_doc, plain_snap(doc))
                 if d:
                     col.fail(check=name + '/original-untouched', cls={'clause': 'original-untouched', 'feature': k},
@@ -1132,7 +1442,8 @@ def run_clone(tier, seed):
                         col.fail(check=name + '/returns', cls={'clause': 'returns', 'feature': '%s %s' % (k, type(copy2).__name__)},
                                  witness=dict(w2, children=children, keep_id=keep_id), detail='clone of the copy raised %r' % (copy2,))
                     else:
-                        judge_clone(col, name, copy, copy2, children, keep_id, w2, classes=classes2, names=names2)
+                        judge_clone(col, name, copy, copy2, children, keep_id, w2, classes=classes2, names=names2,
+                                    inh=inherit_classes(copy) if inh and k != 'property' else None)
                     d = snap_diff(before_copy, plain_snap(copy)) or snap_diff(before_doc, plain_snap(doc))
                     if d:
                         col.fail(check=name + '/original-untouched', cls={'clause': 'original-untouched', 'feature': k},
@@ -1153,7 +1464,8 @@ def _templates_part(col, name, tier, seed):
     old_tmp = tempfile.tempdir
     tempfile.tempdir = os.path.join(tdir, 'tmp')
     try:
-        makers = [m for m in doc_makers(tier, seed, max_secs=3, per_shape=1, naming='reduced', relations='reduced')
+        makers = [m for m in doc_makers(tier, seed, max_secs=3, per_shape=1, naming='reduced', relations='reduced',
+                                          inherit='reduced')
                   if not m[0]['linked'] and not m[0]['loaded']]
         for n, (wit, make) in enumerate(makers):
             doc = make()
@@ -1290,6 +1602,44 @@ def locate_chain_difference(chain, res):
     return 'other'
 
 
+def chain_triples(chain, res):
+    """(original, copied object, where) along the chain, with the Properties of every Section on it, position by
+    position as far as the result has the shape of the chain."""
+    out = []
+    cur = res
+    for depth, exp in enumerate(chain):
+        if cur is None or kind_of(cur) != kind_of(exp):
+            break
+        where = 'root' if depth == 0 else ('exported Section' if depth == len(chain) - 1 else 'Section on the chain')
+        out.append((exp, cur, where))
+        if isinstance(exp, BaseSection):
+            pe, pc = list(list.__iter__(exp._props)), list(list.__iter__(cur._props))
+            if len(pe) == len(pc):
+                out += [(x, y, 'Property of ' + where) for x, y in zip(pe, pc)]
+        subs = list(list.__iter__(cur._sections))
+        cur = subs[0] if len(subs) == 1 else None
+    return out
+
+
+def chain_effective_problems(chain, res, inh):
+    """get_repository() at every level of the exported chain: what the original object of that level owns, else what
+    the nearest level above it on the chain owns (the chain starts at the root: the same as in the original)."""
+    out = []
+    inherited = None
+    for exp, cur, where in chain_triples(chain, res):
+        if isinstance(exp, BaseProperty):
+            continue
+        eff = exp._repository if exp._repository is not None else inherited
+        kind, got = lcall(cur.get_repository)
+        if kind == 'exc' or got != eff:
+            out.append(('%s (%s)' % (where, inh.get(id(exp), 'none')),
+                        'get_repository() of the copy of %s gives %r; the original owns %r, the levels above give %r'
+                        % (node_path(exp), got, exp._repository, inherited)))
+            break
+        inherited = eff
+    return out
+
+
 @tidy
 def run_export_leaf(tier, seed):
     name = 'C11.export_leaf'
@@ -1300,12 +1650,14 @@ def run_export_leaf(tier, seed):
                          'root, in the document and (relation documents, a sample of the others) in a top-level Section '
                          'detached from it; distinct = (root kind, node kind, depth, siblings present, properties on '
                          'the chain, name/id relation of the node, id-related names on the chain, linked, loaded, id '
-                         'relation of node and exported Section, ids repeated on the chain, content relation)',
+                         'relation of node and exported Section, ids repeated on the chain, content relation, own / '
+                         'inherited repository at every level of the chain - inherited-attribute dimension as in C11.clone)',
               exhaustive=False)
 
     def cases(root, wit):
         classes = name_classes(root)
         idc, cont = id_classes(root), content_classes(root)
+        inh = inherit_classes(root) if wit.get('inherit') else {}
         secs, props = h.walk(root)
         if isinstance(root, BaseSection):
             secs = [root] + secs
@@ -1328,7 +1680,9 @@ def run_export_leaf(tier, seed):
                               classes.get(id(node), 'n/a'),
                               any(classes.get(id(o)) not in ('plain-name', 'odd-name') for o in on_chain if o is not node),
                               bool(wit['loaded']), idc[id(node)], idc[id(last)], ids_on_chain,
-                              cont.get(id(node), 'n/a'), cont.get(id(last), 'n/a')),
+                              cont.get(id(node), 'n/a'), cont.get(id(last), 'n/a'),
+                              tuple(inh.get(id(c), 'none') for c in chain) if inh else (),
+                              wit.get('inherit', '').rsplit(' ', 1)[-1]),
                      sample='%s %s' % (wit['shape'], node_path(node)))
             kind, res = h.call(node.export_leaf)
             if kind == 'exc':
@@ -1345,6 +1699,15 @@ def run_export_leaf(tier, seed):
                          cls={'clause': 'exact-chain',
                               'feature': '%s: %s; %s' % (k, locate_chain_difference(chain, res), ids_on_chain)},
                          witness=w, detail='first difference expected chain vs result: %s' % d)
+            with h.quiet():
+                pub = public_problems(chain_triples(chain, res), inh, ids=True)
+                eff = chain_effective_problems(chain, res, inh)
+            for feature, detail in pub:
+                col.fail(check=name + '/public-attributes-equal',
+                         cls={'clause': 'public-attributes-equal', 'feature': '%s: %s' % (k, feature)}, witness=w, detail=detail)
+            for feature, detail in eff:
+                col.fail(check=name + '/applicable-repository',
+                         cls={'clause': 'applicable-repository', 'feature': '%s: %s' % (k, feature)}, witness=w, detail=detail)
             seen = set()
             with h.quiet():
                 found_problems = chain_lookup_problems(chain, node, res, classes)
@@ -1733,20 +2096,32 @@ def op_clean(rnd, root):
     return 'clean'
 
 
+def op_repository(rnd, root):
+    """Define / re-define / take away the repository of the Document or a Section (public setter; the URLs are in the
+    terminology cache).  Only used on the documents of the inherited-attribute dimension."""
+    cands = _secs(root) + ([root] if isinstance(root, BaseDocument) else [])
+    if not cands:
+        return None
+    install_repositories()
+    x = rnd.choice(cands)
+    h.call(setattr, x, 'repository', rnd.choice(INH_URLS[3:] + [None]))
+    return 'repository-%s-attribute' % kind_of(x)
+
+
 OPS = [op_values_set, op_value_append, op_value_extend, op_value_setitem, op_value_remove, op_value_insert,
        op_value_inner_edit, op_returned_list_edit, op_dtype, op_prop_attr, op_sec_attr, op_doc_attr, op_rename,
        op_rename_default, op_rename_to_id, op_new_id, op_remove_child, op_add_section, op_add_property, op_move, op_move_property, op_reorder, op_sort,
        op_replace_child, op_cardinality, op_merge, op_clean]
 
 
-def edit_sequence(rnd, target, observed, length):
+def edit_sequence(rnd, target, observed, length, ops=None):
     """Apply `length` random edits to the tree `target`; after each one `observed()` must be unchanged.
     Returns (labels applied, first difference or None)."""
     before = observed()
     labels = []
     for _ in range(length):
         for _try in range(6):
-            lab = rnd.choice(OPS)(rnd, target)
+            lab = rnd.choice(ops or OPS)(rnd, target)
             if lab:
                 break
         else:
@@ -1758,12 +2133,12 @@ def edit_sequence(rnd, target, observed, length):
     return labels, None
 
 
-def every_op_once(rnd, target, observed, first=()):
+def every_op_once(rnd, target, observed, first=(), ops=None):
     """Apply every applicable operation once (the ones in `first`, then the rest in random order);
     `observed()` must stay unchanged."""
     before = observed()
     labels = []
-    ops = [o for o in OPS if o not in first]
+    ops = [o for o in (ops or OPS) if o not in first]
     rnd.shuffle(ops)
     ops = list(first) + ops
     for op in ops:
@@ -1798,15 +2173,23 @@ def run_independence(tier, seed):
                          'grafted into the document of their original; quick tier: of these documents only the Document '
                          'and the related objects as copy root); distinct = (way, node kind, direction, has nested values, '
                          'name/id relation of the node, loaded, with whom the node shares its id, repeated ids in the '
-                         'document, content relation of the node)', exhaustive=False)
-    rnd = random.Random('c11-ind-%s' % seed)
+                         'document, content relation of the node, own / inherited repository of the node); documents of '
+                         'the inherited-attribute dimension: additional edit = define / re-define / remove a repository at '
+                         'any level, observed = private state AND get_repository() of every object of the other tree',
+              exhaustive=False)
+    rnd_plain = random.Random('c11-ind-%s' % seed)
+    rnd_inh = random.Random('c11-ind-inh-%s' % seed)    # own stream: the draws for the other documents stay as they were
+    ops_inh = OPS + [op_repository, op_repository, op_repository]
     seq_len = 8 if tier == 'quick' else 14
     makers = doc_makers(tier, seed, max_secs=4 if tier == 'quick' else 5, per_shape=2 if tier == 'quick' else 3,
-                         naming='reduced', relations='reduced')
+                         naming='reduced', relations='reduced', inherit='reduced')
 
     # ---- tree copies: clone and export_leaf
     for wit, make in makers:
+        inherit = bool(wit.get('inherit'))
+        rnd = rnd_inh if inherit else rnd_plain
         probe = make()
+        pinh = inherit_classes(probe) if inherit else {}
         pnodes = all_nodes(probe)
         n_nodes = len(pnodes)
         # the document is re-built for every case: its classification is the same every time
@@ -1814,11 +2197,13 @@ def run_independence(tier, seed):
         shared_ids = any(v != 'unique' for v in pidc.values())
         for idx in range(n_nodes):
             k = kind_of(pnodes[idx])
+            if inherit and tier == 'quick' and k == 'property':
+                continue        # quick tier: of the inherit documents only the objects that can define / inherit
             if wit.get('relations') and tier == 'quick' and idx > 0 and pidc[id(pnodes[idx])] == 'unique' \
                     and pcont.get(id(pnodes[idx])) in ('distinct', 'name-of-object-above'):
                 continue        # quick tier: of the relation documents only the Document and the related objects
             ncls = (pname.get(id(pnodes[idx]), 'n/a'), pidc[id(pnodes[idx])], shared_ids,
-                    pcont.get(id(pnodes[idx]), 'n/a'))
+                    pcont.get(id(pnodes[idx]), 'n/a'), pinh.get(id(pnodes[idx]), 'none'), inherit)
             ways = [('clone', True, False), ('clone', True, True)]
             if k != 'property':
                 ways.append(('clone', False, False))
@@ -1839,14 +2224,20 @@ def run_independence(tier, seed):
                     col.case(cls_key=(way, children, keep_id, k, direction, nested, wit['linked'], bool(wit['loaded'])) + ncls,
                              sample='%s %s %s %s' % (wit['shape'], node_path(node), way, direction))
                     if direction == 'edit-copy':
-                        target, observed = copy, (lambda doc=doc: plain_snap(doc))
+                        target, watched = copy, doc
                     else:
                         # edit the whole original document, not only the node
-                        target, observed = doc, (lambda copy=copy: plain_snap(copy))
-                    if rnd.random() < 0.5:
-                        labels, d = every_op_once(rnd, target, observed)
+                        target, watched = doc, copy
+                    if inherit:
+                        # also what APPLIES to the objects of the other tree (inherited values) must stay as it is
+                        observed = (lambda x=watched: (plain_snap(x), observed_effective(x)))
                     else:
-                        labels, d = edit_sequence(rnd, target, observed, seq_len)
+                        observed = (lambda x=watched: plain_snap(x))
+                    if rnd.random() < 0.5:
+                        labels, d = every_op_once(rnd, target, observed, ops=ops_inh if inherit else None,
+                                                  first=(op_repository,) if inherit else ())
+                    else:
+                        labels, d = edit_sequence(rnd, target, observed, seq_len, ops=ops_inh if inherit else None)
                     if d:
                         col.fail(check='%s/%s' % (name, direction),
                                  cls={'clause': direction + '-leaves-other-unchanged',
@@ -1855,6 +2246,7 @@ def run_independence(tier, seed):
                                  detail='the %s changed: %s' % ('original' if direction == 'edit-copy' else 'copy', d))
 
     # ---- lists returned by `values` and lists passed in as `values`
+    rnd = rnd_plain
     pool = [(dtype, list(vals)) for dtype, vlists in h.VALUE_POOL.items() for vals in vlists]
     pool += [('2-tuple', [['1', '2'], ['3', '4']]), ('3-tuple', [['a', 'b', 'c']]), ('string', ['[a,b]']),
              ('int', ['1', '2']), ('float', [1, 2])]
